@@ -6,7 +6,7 @@ use crate::families::aio::{self, CancelAfter, FrameReader, jitter, sleep_ms, sle
 use crate::families::c03_common::{Counters, Req, build_router, check_responses, draw_len, gen_requests, model, sanitize};
 use crate::families::client_blocking::{check_tap, draw_net};
 use crate::framework::{Case, Family, coin, pick, range};
-use repe::{AsyncClient, AsyncServer};
+use repe::{AsyncClient, AsyncServer, Message};
 use serde_json::{Value, json};
 use simkernel::net::{self, NetConfig, Side};
 use simkernel::tokio_net::{TcpListener, TcpStream};
@@ -1136,6 +1136,8 @@ fn c05_async_client(case: &Case) {
             let errs = errs.clone();
             let case = case.clone();
             let notify = simkernel::choose(5) == 0;
+            // a prebuilt message relayed as is (the proxy's route to the wire)
+            let forward = !notify && simkernel::choose(5) == 0;
             let mode = cancel_mode[i];
             let polls = range(1, 8);
             let to_us = pick(&[1u64, 20, 300, 2_000, 30_000]);
@@ -1144,7 +1146,10 @@ fn c05_async_client(case: &Case) {
                 let body = pattern(i as u64 + 1, len);
                 let path = format!("/w/{}", i + 1);
                 let fut = async {
-                    if notify {
+                    if forward {
+                        let m = Message::builder().id((1u64 << 33) + i as u64).query_str(&path).query_format_code(1).body_bytes(body.clone()).build();
+                        c.forward_message_with_timeout(&m, Duration::from_secs(5)).await.map(|_| ())
+                    } else if notify {
                         c.notify_with_formats(&path, 1, Some(&body), 0).await.map(|_| ())
                     } else {
                         c.call_with_formats_and_timeout(&path, 1, Some(&body), 0, Duration::from_secs(5)).await.map(|_| ())
@@ -1173,6 +1178,8 @@ fn c05_async_client(case: &Case) {
         let follow = pattern(999, 10);
         let _ = timeout(Duration::from_secs(2), client.notify_with_formats("/w/999", 1, Some(&follow), 0)).await;
         let _ = client.call_with_formats_and_timeout("/w/999", 1, Some(&follow), 0, Duration::from_millis(300)).await;
+        let fm = Message::builder().id((1u64 << 33) + 999).query_str("/w/999").query_format_code(1).body_bytes(follow.clone()).build();
+        let _ = client.forward_message_with_timeout(&fm, Duration::from_millis(300)).await;
         sleep_ms(2_500).await;
         let bytes = net::tap_of(&conn, Side::A);
         let id_of = |f: &Frame| -> u64 { f.query_str().rsplit('/').next().and_then(|s| s.parse().ok()).unwrap_or(0) };
@@ -1200,7 +1207,8 @@ fn c05_async_server(case: &Case) {
     let big = simkernel::choose(3) == 0;
     let sizes: Vec<usize> = (0..n).map(|_| if big { pick(&[8191usize, 8192, 8193, 20_000, 40_000]) } else { pick(&[0usize, 1, 100, 1000, 3000]) }).collect();
     let stall_after = pick(&[0usize, 20, 48, 500, 9_000]);
-    let stall_ms = pick(&[0u64, 2, 10, 100, 1_000]);
+    let between = write_timeout.map(|d| d.as_millis() as u64 * 3 / 2).unwrap_or(7).max(2); // between one and two write timeouts
+    let stall_ms = pick(&[0u64, 2, 10, 100, 1_000, between, between]);
     let second_wave = coin();
     case.sample(json!({"requests": n, "sizes": sizes, "capacity": capacity, "server_write_timeout_ms": write_timeout.map(|d| d.as_millis() as u64),
         "client_stalls_after_bytes": stall_after, "stall_ms": stall_ms, "second_wave_after_stall": second_wave}));
